@@ -125,6 +125,8 @@ def main():
     ap.add_argument('--id')
     ap.add_argument('--list', action='store_true')
     ap.add_argument('--jobs', type=int, default=8)
+    ap.add_argument('--no-controls', action='store_true', help='skip the refactoring controls (mutants and seeds only)')
+    ap.add_argument('--controls-for', help='comma-separated property ids: run only the refactoring controls, and only these properties\' checks on them')
     ap.add_argument('--verbose', '-v', action='store_true')
     a = ap.parse_args()
     ms = load_mutants()
@@ -132,6 +134,11 @@ def main():
         ms = [m for m in ms if a.property.upper() in m['properties']]
     if a.id:
         ms = [m for m in ms if a.id in m['id']]
+    if a.no_controls:
+        ms = [m for m in ms if m.get('source') != 'refactors']
+    if a.controls_for:
+        want = [x.strip().upper() for x in a.controls_for.split(',')]
+        ms = [dict(m, properties=want) for m in ms if m.get('source') == 'refactors']
     if a.list:
         for m in ms:
             print(m['id'], m['properties'], m.get('expect', 'violation'), m.get('rules'))
